@@ -684,6 +684,19 @@ class World:
             if key not in it.static_cells:
                 it.static_cells[key] = Cell(it.run(Frame(b), None)[1], key)
             return it.copy_val(it.static_cells[key].value)
+        mm = re.search(r"<impl (u8|u16|u32|u64|u128|usize|i8|i16|i32|i64|i128|isize)>::(MAX|MIN|BITS)$", path)
+        if mm:
+            from .mirparse import INT_TYPES
+            bits, signed = INT_TYPES[mm.group(1)]
+            if mm.group(2) == "BITS":
+                return IntV(bits, 32)
+            if mm.group(2) == "MAX":
+                return IntV((1 << (bits - 1)) - 1 if signed else (1 << bits) - 1, bits, signed)
+            return IntV(-(1 << (bits - 1)) if signed else 0, bits, signed)
+        if path.endswith("Duration::ZERO") or s.endswith("Duration::ZERO"):
+            return Agg("struct", "Duration", [0])
+        if s.endswith("SystemTime::UNIX_EPOCH") or s.endswith("UNIX_EPOCH"):
+            return Agg("struct", "SystemTime", [0])
         if last == "BRANCHES" and "Out" in self.prog.enums:
             # tokio::select!'s `const BRANCHES: u32 = count!(..)` (CTFE constant, not dumped):
             # the number of branches = number of Out variants minus `Disabled`
